@@ -180,7 +180,8 @@ func (h *apiHarness) do(method, path string, body []byte, hdr map[string]string,
 	if basic != "" {
 		req.SetBasicAuth("robustirc", basic)
 	}
-	client := &http.Client{}
+	// no connection reuse: CloseClientConnections (used to hang up on streams) races with keep-alive reuse
+	client := &http.Client{Transport: &http.Transport{DisableKeepAlives: true}}
 	if streamFor > 0 {
 		client.Timeout = 0
 	}
